@@ -51,6 +51,11 @@ fn build_mint(r: &mut R, older: (u16, u64, u64), newer: (u16, u64, u64)) -> Vec<
     if rnd::chance(r, 1, 3) {
         exts.insert(0, ExtensionType::InterestBearingConfig);
     }
+    // Token-2022 stores extensions in initialisation order, not by type number
+    if r.gen() {
+        use rand::seq::SliceRandom;
+        exts.shuffle(r);
+    }
     let len = ExtensionType::try_calculate_account_len::<Mint>(&exts).unwrap();
     let mut d = vec![0u8; len];
     {
@@ -234,8 +239,14 @@ impl Monitor for C16m {
             if vout != curve_out {
                 fail(acc, "vault_paid_not_curve_output", format!("curve output {curve_out} but the vault paid {vout}"));
             }
-            // the request is the smallest amount that delivers the curve input (or exactly the amount specified)
-            if paid > 0 && !(c.exact_in && paid == c.amount as u128) {
+            // the request is the smallest amount that delivers the curve input; an exact-in swap that used its
+            // whole budget pays exactly the amount specified
+            let budget = (c.amount - fee_of(&obs.pre, &m_in, c.amount)) as u128;
+            if c.exact_in && need_in == budget {
+                if paid != c.amount as u128 {
+                    fail(acc, "full_fill_not_charged_the_amount", format!("the curve used the whole budget {budget} but the trader paid {paid}, not {}", c.amount));
+                }
+            } else if paid > 0 {
                 let below = (paid - 1) as u64;
                 if (below - fee_of(&obs.pre, &m_in, below)) as u128 >= need_in {
                     fail(acc, "requested_more_than_needed", format!("trader paid {paid} but {below} would already deliver the {need_in} the curve needs"));
